@@ -5,5 +5,5 @@ RULES = [
      lambda c, d: "+hk" in c["chain"]),
     ("C04-F1", "a chain in which one held input is added twice (m.write(m.read() + d + d), also with other steps in between): the cell iterates "
                "2*m + 2*d instead of m + 2*d (the feedback is counted twice)",
-     lambda c, d: c["chain"].count("+h") >= 2),
+     lambda c, d: c["chain"].count("+h") + c["chain"].count("h-") >= 2),
 ]
